@@ -169,7 +169,9 @@ func (w *world) settle(alts []Proj) (Proj, bool) {
 				return cur, true
 			}
 		}
-		if quiet > 3*time.Millisecond {
+		// a state the model does not predict is taken for settled only after it has not moved for much longer: on a loaded
+		// machine a goroutine that has been woken may need many milliseconds to get a processor
+		if quiet > 3*time.Millisecond && (len(alts) == 0 || quiet > 100*time.Millisecond) {
 			return cur, true
 		}
 		if time.Now().After(deadline) {
